@@ -138,6 +138,43 @@ fn main() {
             cases::write_lines(&out, &lines);
             println!("cases {}", lines.len());
         }
+        Some("trace-features") => {
+            let inputs = cases::resolve_inputs(&get("inputs", "gen:100"), seed);
+            let lines: Vec<_> = inputs.par_iter().flat_map(|i| vec![cases::features_case(i, 0), cases::features_case(i, 1)]).collect();
+            cases::write_lines(&out, &lines);
+            println!("cases {}", lines.len());
+        }
+        Some("feature-facts") => {
+            std::fs::write(&out, cases::feature_facts()).unwrap();
+        }
+        Some("trace-arena") => {
+            // histories=<file of TLC CASE lines> random=<n>:<len>  -> one trace file per arena kind (plain, dedup, nodelete)
+            let mut hs: Vec<(String, Vec<wv::arena::Op>)> = vec![];
+            if let Some(f) = a.get("histories") {
+                for (k, h) in wv::arena::read_histories(f).into_iter().enumerate() {
+                    hs.push((format!("h{}", k), h));
+                }
+            }
+            if let Some(r) = a.get("random") {
+                let (cnt, len) = r.split_once(':').unwrap();
+                for k in 0..cnt.parse::<u64>().unwrap() {
+                    hs.push((format!("r{}-{}", seed, k), wv::arena::random_history(seed.wrapping_mul(7919).wrapping_add(k), len.parse().unwrap(), 3)));
+                }
+            }
+            let mut by_kind: std::collections::BTreeMap<&str, Vec<serde_json::Value>> = Default::default();
+            for coll in wv::arena::COLLECTIONS {
+                let lines: Vec<_> = hs.par_iter().map(|(id, h)| wv::arena::replay(coll, id, h)).collect();
+                by_kind.entry(wv::arena::kind_of(coll)).or_default().extend(lines);
+            }
+            let shards: usize = get("shards", "1").parse().unwrap();
+            for (kind, lines) in by_kind {
+                let per = (lines.len() + shards - 1) / shards.max(1);
+                for (s, chunk) in lines.chunks(per.max(1)).enumerate() {
+                    cases::write_lines(&format!("{}.{}.{}", out, kind, s), chunk);
+                }
+                println!("{} histories {}", kind, lines.len());
+            }
+        }
         Some("digests") => {
             // one line per input: id and digest of  parse ; emit  with the default switches (separate process per call)
             let inputs = cases::resolve_inputs(&get("inputs", "gen:100"), seed);
